@@ -2313,6 +2313,19 @@ impl Archive {
 
         // Check if we have sector CRCs
         let mut sector_crcs = None;
+        // ArchiveBuilder stores one adler32 per *uncompressed* sector in a plain (never encrypted)
+        // table between the offset table and the sector data and does not count that table in the
+        // block's compressed size. Two independent facts identify that layout: the first sector
+        // starts right behind the two tables, and the last offset is compressed_size + 4 * sectors.
+        // One of them is enough (a damaged offset table must not switch the verification off);
+        // sectored files of the builder always have at least two sectors. Archives written by other
+        // tools keep their checksums in an extra, separately compressed sector (first offset
+        // (sectors + 2) * 4, last offset below compressed_size): those are not interpreted here.
+        let builder_crc_layout = file_info.has_sector_crc()
+            && sector_count >= 2
+            && (sector_offsets[0] as usize == offset_table_size + sector_count * 4
+                || sector_offsets[sector_count] as u64
+                    == file_info.compressed_size + 4 * sector_count as u64);
         if file_info.has_sector_crc() {
             // The first sector offset tells us where the data starts
             // If it's large enough to accommodate a CRC table, then CRCs are present
@@ -2320,7 +2333,9 @@ impl Archive {
             let expected_crc_table_start = offset_table_size;
             let expected_crc_table_size = sector_count * 4;
 
-            if first_data_offset >= expected_crc_table_start + expected_crc_table_size {
+            if builder_crc_layout
+                || first_data_offset >= expected_crc_table_start + expected_crc_table_size
+            {
                 // CRC table follows the offset table
                 let crc_table_pos = self.reader.stream_position()?;
                 let expected_crc_table_size = Self::checked_data_len(
@@ -2333,7 +2348,7 @@ impl Archive {
 
                 // CRC table may be encrypted if the file is encrypted
                 // According to MPQ format, CRC table uses the same key as the offset table but offset by sector count
-                if file_info.is_encrypted() {
+                if file_info.is_encrypted() && !builder_crc_layout {
                     let crc_key = key.wrapping_sub(1).wrapping_add(sector_count as u32);
                     decrypt_file_data(&mut crc_data, crc_key);
                 }
@@ -2432,13 +2447,6 @@ impl Archive {
                 decrypt_file_data(sector_data, sector_key);
             }
 
-            // Validate CRC if present - MUST be done AFTER decryption but BEFORE decompression
-            // Skip CRC validation for now due to decryption key issues in some archives
-            if let Some(ref _crcs) = sector_crcs {
-                // Temporarily disabled CRC validation
-                // TODO: Fix CRC decryption key calculation for proper validation
-                log::trace!("Skipping CRC validation for sector {i}");
-            }
 
             // Decompress sector
             let decompressed_sector = if file_info.is_compressed()
@@ -2481,6 +2489,21 @@ impl Archive {
                 // Sector is not compressed
                 sector_data[..expected_size.min(sector_data.len())].to_vec()
             };
+
+            // Validate the sector checksum (adler32 of the uncompressed sector, as written by
+            // ArchiveBuilder::write_file)
+            if let Some(ref crcs) = sector_crcs
+                && builder_crc_layout
+            {
+                let actual_crc = adler2::adler32_slice(&decompressed_sector);
+                if actual_crc != crcs[i] {
+                    return Err(Error::ChecksumMismatch {
+                        file: file_info.filename.clone(),
+                        expected: crcs[i],
+                        actual: actual_crc,
+                    });
+                }
+            }
 
             decompressed_data.extend_from_slice(&decompressed_sector);
         }
